@@ -41,6 +41,25 @@ Theorem parent_equals_full : forall D chunks tid o st ix (parents : list id) (cs
 Proof. exact parent_equals_full_lemma. Qed.
 Print Assumptions parent_equals_full.
 
+(* The same for the backup COMMAND: the options of ParentOptions travel through get_parent into
+   Parent::new (argument order regenerated from commands/backup.rs); the premise is the one of the
+   options the user set (ignore_ctime of ParentOptions decides whether ctime counts). *)
+Theorem options_reach_parent_under_their_names : forall po, opts_passed po = po.
+Proof. exact opts_passed_lemma. Qed.
+Print Assumptions options_reach_parent_under_their_names.
+
+Theorem parent_equals_full_for_the_command : forall D chunks tid po st ix (parents : list id) (cs1 : list (src D)) skip skip',
+  allP (wf D) cs1 ->
+  (forall pid T, In pid parents -> st pid = Some T ->
+     exists cs0, T = map (read_all D chunks tid) cs0 /\ allP (wf D) cs0 /\
+                 allP (stored D chunks tid st) cs0 /\
+                 allP (fun x1 => forall x0, In x0 cs0 -> sname x0 = sname x1 -> visible D chunks po x1 x0) cs1) ->
+  exists w w',
+    backup_cmd D chunks tid po st ix parents false skip cs1 = Some (tid (map (read_all D chunks tid) cs1), w) /\
+    backup_cmd D chunks tid po st ix parents true skip' cs1 = Some (tid (map (read_all D chunks tid) cs1), w').
+Proof. exact parent_equals_full_cmd_lemma. Qed.
+Print Assumptions parent_equals_full_for_the_command.
+
 Theorem parent_equals_full_hypotheses_satisfiable :
   allP (wf D_ex) cs1 /\
   (forall pid T, In pid [root0] -> st_ex pid = Some T ->
